@@ -234,7 +234,7 @@ impl TrigramIndex {
         let __end0 = grams.len();
         for __i0 in 0..__end0
             invariant __end0 == grams@.len(), counts@.len() == len0, dict@ == dict0, postings_wf(dict0, len0),
-                forall|j: int| 0 <= j < counts@.len() ==> #[trigger] counts@[j] <= __i0,
+                forall|j: int| 0 <= j < counts@.len() ==> #[trigger] counts@[j] <= __i0, // [C01 C10 C18]
         {
             let gram = &grams[__i0];
             if let Some(ixs) = dict.get(gram) {
@@ -242,8 +242,8 @@ impl TrigramIndex {
                 for __i1 in 0..__end1
                     invariant __end1 == ixs@.len(), __end0 == grams@.len(), __i0 < __end0, counts@.len() == len0, dict@ == dict0, postings_wf(dict0, len0),
                         dict0.contains_key(*gram), ixs@ == dict0[*gram]@,
-                        forall|j: int| 0 <= j < counts@.len() ==> #[trigger] counts@[j] <= __i0 + 1,
-                        forall|j: int| 0 <= j < counts@.len() && (forall|t: int| 0 <= t < __i1 ==> ixs@[t] != j) ==> #[trigger] counts@[j] <= __i0,
+                        forall|j: int| 0 <= j < counts@.len() ==> #[trigger] counts@[j] <= __i0 + 1, // [C01 C10 C18]
+                        forall|j: int| 0 <= j < counts@.len() && (forall|t: int| 0 <= t < __i1 ==> ixs@[t] != j) ==> #[trigger] counts@[j] <= __i0, // [C01 C10 C18]
                 {
                     let ix = ixs[__i1];
                     unsafe {
